@@ -214,6 +214,26 @@ def leak_obs(oid, i1, i2):
             "attempts2": a2, "fails2": f2[:1], "interval2": i2}
 
 
+def leak_mc_obs(oid, i2):
+    """a Map with MaxConcurrency 1: the first item's Task is retried once and succeeds, the second item's Task fails with an
+    error only the MAP's retrier matches -- the Map's first retry comes after its own IntervalSeconds (the retry count of
+    the first item's Task must not travel with the event that re-enters the Map for its next block)"""
+    T, P, SM, Mp = S.T, S.P, S.SM, S.Mp
+    task = T("f", End=True, Retry=[{"ErrorEquals": ["E1"], "IntervalSeconds": 1, "MaxAttempts": 2, "BackoffRate": 1.0}])
+    asl = SM("M", M=dict(Mp(SM("B", B=task), ItemsPath="$.items", End=True), MaxConcurrency=1,
+                         Retry=[{"ErrorEquals": ["E2"], "IntervalSeconds": i2, "MaxAttempts": 2, "BackoffRate": 2.0}]))
+    oracle = {"f": [{"error": "E1"}, {"ok": 1}, {"error": "E2"}, {"ok": 1}, {"ok": 2}]}
+    r = run_once(S.scn("c07-leakmc", asl, inputs=({"items": [1, 2]},), oracle=oracle), d1=False, execution_ttl=100000)
+    rpcs = [e["t"] for e in r.events if e["k"] == "pub" and e.get("kind") == "rpc"]
+    replies = [e["t"] for e in r.events if e["k"] == "frame" and e.get("cause") == "reply"]
+    # calls: 1 item1 (E1), 2 item1 again (ok), 3 item2 (E2: the Map fails), 4 item1 of the re-run Map
+    a2 = rpcs[2:4] if len(rpcs) >= 4 else rpcs[2:]
+    f2 = replies[2:3]
+    return {"id": oid, "kind": "leak", "stype": "Map", "retriers": [], "catchers": [], "outcomes": [], "attempts": [], "fails": [],
+            "final": {"kind": "none", "idx": 0, "error": "", "output": tagged.enc(None)}, "input": tagged.enc(None),
+            "attempts2": a2, "fails2": f2, "interval2": i2}
+
+
 def case_space(thorough, rng):
     retr_pool = [[]]
     singles = []
@@ -274,6 +294,10 @@ def run(tier_name=None, replay=None):
         n += 1
         obs.append(observe_nested(n, stype, outer, inner, outs))
         meta[n] = {"nested": stype, "outer": outer, "inner": inner, "outcomes": outs}
+    for i2 in (1, 3):
+        n += 1
+        obs.append(leak_mc_obs(n, i2))
+        meta[n] = {"leak_across_map_blocks": i2}
     for i1, i2 in ((1, 1), (1, 2), (2, 3), (3, 1)):
         n += 1
         obs.append(leak_obs(n, i1, i2))
